@@ -16,6 +16,7 @@ import (
 var errE2EClosed = errors.New("use of closed network connection")
 
 type e2eConn struct {
+	name    string // remote address (default 198.51.100.9:50123)
 	mu      sync.Mutex
 	in      []byte
 	rpos    int
@@ -110,8 +111,13 @@ func (c *e2eConn) Close() error {
 	}
 	return nil
 }
-func (c *e2eConn) LocalAddr() net.Addr                { return e2eAddr("192.0.2.1:443") }
-func (c *e2eConn) RemoteAddr() net.Addr               { return e2eAddr("198.51.100.9:50123") }
+func (c *e2eConn) LocalAddr() net.Addr { return e2eAddr("192.0.2.1:443") }
+func (c *e2eConn) RemoteAddr() net.Addr {
+	if c.name != "" {
+		return e2eAddr(c.name)
+	}
+	return e2eAddr("198.51.100.9:50123")
+}
 func (c *e2eConn) SetDeadline(t time.Time) error      { return nil }
 func (c *e2eConn) SetReadDeadline(t time.Time) error  { return nil }
 func (c *e2eConn) SetWriteDeadline(t time.Time) error { return nil }
